@@ -15,6 +15,19 @@ from harness.common import Ctx, Outcome, Violation
 SPEC = os.path.join(common.SPECS, 'graph', 'Graph.tla')
 CFG = os.path.join(common.SPECS, 'graph', 'Graph.cfg')
 
+MANIFEST_ENTRY = dict(
+    engine='graph',
+    technique='TLA+ definitions (specs/graph/Graph.tla, specs/exact/Monomial.tla) evaluated by TLC over observations of the real methods',
+    text='Every public CouplingGraph query, topology constructor, embedding test, PermutationMatrix.from_qudit_location and the '
+         'UnitaryMatrix/UnitaryBuilder tensor, power and apply operations are observed on the real code and recomputed by TLC from '
+         'textbook definitions written in TLA+: exhaustively for all labelled graphs on up to 5 vertices (6 sampled in thorough), '
+         'random weighted/remote-edge graphs up to 12 vertices, all location orders up to 4 qudits (5 thorough) with radix 2-4, '
+         'random monomial matrices for the algebra.',
+    note='Trusted: TLC, the discretiser in harness/exact.py (argmax, phase class in units of 2*pi/48, 1e-7 tolerance), the observation '
+         'code in harness/checks/c20.py. Matrices in the algebra cases are monomial; generic complex matrices are not explored.',
+    ref='DESIGN.md section 4 / C20',
+)
+
 
 def _inf(x):
     return -1 if math.isinf(x) else int(round(x))
